@@ -6,6 +6,12 @@ CHECKS = {
  # id: (claimed?, level text, level note)
  "C06": ("Lean theorems that every modelled verifier/decoder returns (never `panic`) for all field values, with pre-fix crash witnesses; model tied to the Go verifiers by verdict agreement on boundary grids over every field of every proof system",
          "function-level entry points (exported verifiers, decoders); protocol-level injection is added by the protocol harness when present; wire codec (protobuf) not modelled"),
+ "C07": ("Lean theorems about the round-engine model for every table: fixpoint after each update, local confluence, idempotent duplicates, schedule independence up to permutation and duplication, pre-Start = post-Start delivery, ends exactly once, and no_deadlock for the closed n-party system (all-to-all, disciplined tables; hypotheses decided for the four library tables); tie = the behaviour of every party after each event of whole runs under 9 delivery strategies and exhaustive interleavings (EdDSA n=2) equals the model's trace",
+         "resharing (two committees) is covered by the run-level assertions and the pre-Start witness only, not by the table model; payload validity is abstracted at this level"),
+ "C08": ("Lean theorems: emissions are exactly the canonical per-round prefix once each in order, a round advances only when every requirement is stored with the right flag, wrong-channel copies never advance a round, WaitingFor = exact awaited set for tables without early-return rounds (with the pre-repair over-report witness); tables, routing and constants regenerated from the running code are proved equal to the model's by decide; tie = engine traces with flag-flipped copies injected before/instead/after, routing and wire round-trip assertions on every emitted message",
+         "secrecy of message contents is not modelled (only routing discipline); protobuf codec not modelled"),
+ "C09": ("Lean theorems: critical sections serialise (any interleaving of k callers' deliveries equals the sequential delivery of the concatenation), queries are transparent and exact, end emitted once; runtime part: whole protocol runs with every Start/Update/WaitingFor call in its own goroutine under the Go race detector",
+         "the Go memory model and scheduler are runtime: the race detector observes only the executed interleavings (partial); the lock discipline itself is not extracted from the source"),
  "C10": ("Lean completeness theorems for the proof systems under explicit good-coin predicates; tie = cross-verification: Go-made proofs judged by the Lean verifiers and Lean-made proofs judged by the Go verifiers, plus wire round-trips",
          "completeness is proved for the model; a negligible set of coins (explicit predicate) makes honest proofs fail"),
  "C11": ("Lean theorems: for every verifier, acceptance implies every guard and every verification equation (ranges, gcds, small-prime table, Jacobi, bit lengths, the point relation), plus exact extraction lemmas (Schnorr special soundness, dln both-bits, plaintext/multiplier/mask bounds); tie = both verifiers judge false-statement families produced by the library's provers on bad witnesses and by harness-built transcripts",
